@@ -272,8 +272,9 @@ theorem factorInner_logical (C : FCtx n Ap Ai etree Lnz) (Ax : Array α) (a : Na
         · rw [if_pos h0, if_pos (by omega)]
         · rw [if_neg h0, if_neg (by omega)])
   refine ⟨s, ?_, by rw [show 1 + (n - 1) = n by omega] at hI; exact hI, e1, e2, e3, e4, ?_⟩
-  · unfold factorInner
-    simp only [hsizes, Bool.false_eq_true, ↓reduceIte, Bool.not_true, bind, Except.bind, pure, Except.pure,
+  · have hn0 : (n == 0) = false := by rw [beq_eq_false_iff_ne]; omega
+    unfold factorInner
+    simp only [hsizes, hn0, Bool.false_eq_true, ↓reduceIte, Bool.not_true, bind, Except.bind, pure, Except.pure,
       List.range'_eq_map_range, List.foldlM_map]
     exact hs
   · intro c hc
